@@ -205,7 +205,9 @@ func (mt *MarkdownTable) emitRow(
 		barRight = "|"
 		barCenter = "|"
 	}
-	io.WriteString(w, barLeft)
+	if _, err := io.WriteString(w, barLeft); err != nil {
+		return err
+	}
 	for i = 0; i < max-1; i++ {
 		if _, err := fmt.Fprint(w, mt.mdPaddedCellEscape(cells, widths, alignments, i), barCenter); err != nil {
 			return err
